@@ -5,7 +5,7 @@ import os
 import sys
 
 sys.path.insert(0, os.path.dirname(os.path.dirname(os.path.abspath(__file__))))
-from simlib.configs import CONFIGS  # noqa: E402
+from simlib.allconfigs import CONFIGS  # noqa: E402
 
 NA = {
     "C01": "Go-vs-Ego output equality is a pure function of program text and type mode; no schedule, clock, fault or stored history to simulate.",
